@@ -26,7 +26,7 @@ RULES = {
           "under `frame_img is not <previous>` - in a `finally` for the fallible steps (convert, resize), before the rebinding for the composite branches",
     "R4": "iterator bookkeeping: the image handed to ImageIterator._animate is recorded (self._img) for close(); close() closes the generator then "
           "releases the image; __next__ closes on every handler; _animate sets image._seek_position before every render and back to 0 at each end of "
-          "pass; a generator object that owns an opened image is never discarded or overwritten without releasing that image; shared with C09.R5: frames served from ImageIterator's cache are validated against the current rendered size",
+          "pass; a generator object that owns an opened image is never discarded or overwritten without releasing that image; shared with C09.R5: frames served from ImageIterator's cache are validated against the current rendered size; size-dependent values of the image are read per frame in _animate, never once before the loops",
     "R5": "plain files and temp files: every object returned by the builtin open() is used in a `with`; from_url creates the temp copy only after "
           "the instance was constructed successfully, and removes it again if writing fails; close() removes the copy iff the source is a URL and "
           "tolerates its absence; the temp directory is removed by an atexit hook",
@@ -479,5 +479,6 @@ MUTANTS = [
     M("drop-seek-restore", CM, "BaseImage._display_animated", "            self._seek_position = prev_seek_pos\n", "", {"R6"}),
     M("release-before-cached-loops", CM, "ImageIterator._animate", "        if cached:\n            n_frames = len(cache)\n", "        if cached:\n            n_frames = len(cache)\n            image._close_image(img)\n", {"R7"}),
     M("seek-reply-dropped", CM, "ImageIterator._animate", "                sent = yield frame\n                n = n + 1 if sent is None else sent - 1\n", "                sent = yield frame\n                if sent is None:\n                    n += 1\n                else:\n                    n = sent\n                    sent = yield frame\n", {"R8"}),
+    M("size-snapshot-before-loops", CM, "ImageIterator._animate", "        sent = None\n        n = 0\n", "        needs_padding = fmt[1] > image.rendered_size[0]\n        sent = None\n        n = 0\n", {"R4"}),
     M("twin-rename-prev", CM, "BaseImage._get_render_data", "prev_img", "old_img", twin=True, count=0),
 ]
